@@ -134,14 +134,36 @@ def run_harness(name, cases, procs=8):
     chunks = [c for c in chunks if c]
     n = len(chunks)
 
+    def run_file(cp, op, limit=900):
+        r = sh(["timeout", "-s", "KILL", str(limit), PVH, "run", cp, op])
+        return r.returncode, r.stdout
+
     def one(i):
         cp = os.path.join(d, "cases%d.ndjson" % i)
         op = os.path.join(d, "obs%d.ndjson" % i)
         write_ndjson(cp, chunks[i])
-        r = sh([PVH, "run", cp, op])
-        if r.returncode != 0:
-            raise ToolError("harness crashed on %s: %s" % (cp, r.stdout[-2000:]))
-        return read_ndjson(op)
+        rc, out = run_file(cp, op)
+        if rc == 0:
+            return read_ndjson(op)
+        # The harness process died (stack overflow or abort in the code under test cannot be
+        # caught): run the cases of this chunk one by one and record the ones that kill it.
+        recs = []
+        for j, c in enumerate(chunks[i]):
+            cp1 = os.path.join(d, "cases%d_%d.ndjson" % (i, j))
+            op1 = os.path.join(d, "obs%d_%d.ndjson" % (i, j))
+            write_ndjson(cp1, [c])
+            rc1, out1 = run_file(cp1, op1, limit=30)
+            if rc1 == 0:
+                recs.extend(read_ndjson(op1))
+            else:
+                msg = (out1.strip().splitlines() or ["killed after 30 s" if rc1 in (124, 137) else "process died"])[-1][:200]
+                recs.append({"case": c["id"], "k": "reset", "c": c})
+                recs.append({"case": c["id"], "k": "end", "kind": "panic", "n": 0, "after": [], "tick": 0,
+                             "msg": "harness process died: " + msg, "loc": "process"})
+            for f in (cp1, op1):
+                if os.path.exists(f):
+                    os.remove(f)
+        return recs
 
     with ThreadPoolExecutor(max_workers=n) as ex:
         parts = list(ex.map(one, range(n)))
@@ -165,7 +187,7 @@ def split_by_case(obs):
     return groups
 
 
-def run_judge(name, obs, module="Judge", procs=8, timeout=3000, per_chunk=4000):
+def run_judge(name, obs, module="Judge", procs=8, timeout=1500, per_chunk=4000):
     """Flow C: TLC validates the observation records against the specification.
     Returns {records, accepted, rej:[{case,at,reason}], seconds}."""
     d = os.path.join(WORK, "judge_" + name)
